@@ -338,8 +338,8 @@ theorem listVals_prefix {a b : List (List Int)} (h : a <+: b) : listVals a <+: l
   simp [listVals]
 
 /-- the batch stage satisfies the content specification for `stageSem (.batch n)` -/
-theorem BatchInv.specM {n : Nat} {s : BatchSt} {ins outs : List Down} (h : BatchInv n s ins outs) :
-    SpecM (stageSem (.batch n)) ins outs := by
+theorem BatchInv.specM {P : List Val → Prop} {n : Nat} {s : BatchSt} {ins outs : List Down} (h : BatchInv n s ins outs) :
+    SpecM P (stageSem (.batch n)) ins outs := by
   -- the facts every state provides
   have key : (∃ xs ys, elemsOf ins = intVals xs ∧ elemsOf outs = listVals ys ∧ chunks n xs = ys ++ chunks n []
         ∧ termOf ins = some none ∧ (termOf outs = none ∨ termOf outs = some none)) ∨
@@ -404,7 +404,7 @@ theorem BatchInv.specM {n : Nat} {s : BatchSt} {ins outs : List Down} (h : Batch
         subst this
         rcases h6 with ⟨h7, _⟩ | ⟨he, l, h7⟩
         · exact Or.inl h7
-        · refine Or.inr fun X hX => ?_
+        · refine Or.inr fun X hX _ => ?_
           obtain ⟨rest, rfl⟩ := hX
           rw [h7, he]
           simp [stageSem, ints_blocked, tyErr]
